@@ -606,6 +606,11 @@ def execute(case, tmp, full_every=False):
         run.count('txns-committed', len(h.txns))
         run.count('records:shared', sum(1 for t in h.txns for r in t['recs'] if r[2] is not None))
         run.count('records:uncreate', sum(1 for t in h.txns for r in t['recs'] if r[1] is None))
+        run.count('records:shared-2hop', sum(
+            1 for t in h.txns for r in t['recs']
+            if r[2] is not None and (h.rec_in(r[2], r[0]) or (0, 0, None))[2] is not None))
+        run.count('txns:duplicate-oid', sum(
+            1 for t in h.txns if len({r[0] for r in t['recs']}) < len(t['recs'])))
     finally:
         real.close()
     return run
